@@ -352,6 +352,24 @@ Proof.
   split; [eapply R_same; eassumption|exact Hc].
 Qed.
 
+(* Fold stopped by its callback after n items: exactly the first n pairs of the mapping, in key order *)
+Lemma Forall2_firstn {A B} (P : A -> B -> Prop) : forall n l1 l2, Forall2 P l1 l2 -> Forall2 P (firstn n l1) (firstn n l2).
+Proof.
+  induction n as [|n IH]; intros l1 l2 H; cbn [firstn]; [constructor|].
+  destruct H as [|x y l1 l2 Hxy Hrest]; [constructor|]. constructor; [exact Hxy|apply IH; exact Hrest].
+Qed.
+Theorem db_fold_n_spec d m n :
+  Inv d -> R d m ->
+  exists d' evs, db_fold_n d n = (d', inl (firstn n m), evs) /\ Inv d' /\ R d' m /\ d_cfg d' = d_cfg d.
+Proof.
+  intros HI HR. unfold db_fold_n.
+  assert (HRn : amap_rel (fun p v => val_at d p = Some v) (firstn n (d_index d)) (firstn n m)).
+  { unfold R, amap_rel in *. apply Forall2_firstn. exact HR. }
+  destruct (db_fold_aux_spec (firstn n (d_index d)) d (firstn n m) (proj1 HI) HRn) as (d' & evs & Hf & HF' & Hs & Hc).
+  exists d', evs. split; [exact Hf|]. split; [eapply Inv_same; eassumption|].
+  split; [eapply R_same; eassumption|exact Hc].
+Qed.
+
 (* Sync *)
 Lemma db_sync_spec d m d' evs : Inv d -> R d m -> db_sync d = (d', evs) ->
   Inv d' /\ R d' m /\ d_cfg d' = d_cfg d.
